@@ -529,13 +529,13 @@ def run(ctx):
         if k == 0: samples.append([l[:60] for l in hl[:8]])
         report(ctx, h, hl, v, "grow-%s-%d" % (goal, k))
 
-    # 2c. thorough tier: the same kind of sessions under valgrind/memcheck on the uninstrumented build
-    #     (sees accesses made inside libgmp and reads past a block, which ASan + the GMP guard do not)
+    # 2c. the same kind of sessions under valgrind/memcheck on the uninstrumented build (sees accesses made inside
+    #     libgmp and reads past a block, which ASan + the GMP guard do not); a handful in the quick tier, more in thorough
     vg_runs = 0
-    if not ctx.quick():
+    if True:
         hp = ctx.compile_harness([HARNESS], "c15_reuse_plain", mode="plain")
         sessions = [WITNESSES["grow_multiple_roots"], WITNESSES["shrink_then_grow_clusters"], WITNESSES["approximate_then_larger"]]
-        sessions += [gen_grow_session(rng, "a" if k % 3 == 2 else "i", 24) for k in range(9)]
+        sessions += [gen_grow_session(rng, "a" if k % 3 == 2 else "i", 24) for k in range(ctx.pick(3, 40))]
         for hl in sessions:
             script = [l for l in hl if l != "leakcheck"]
             env = dict(os.environ); env["VF_GMP_GUARD"] = "0"
